@@ -91,6 +91,10 @@ func TestCheck(t *testing.T) {
 					runM1Batch(run, offM1+b, from, to, zooDesc, gwDesc)
 				})
 			}
+		}()
+		wg.Add(1)
+		go func() {
+			defer wg.Done()
 			// monitor 1, deep inputs: small ones share a child, deep ones get a process each
 			if onlySection(run, offDeep) {
 				ins := deepInputs(run.Thorough())
